@@ -152,7 +152,7 @@ def check_mtl(ctx: Ctx, M):
 
 def main(ctx: Ctx):
     ctx.lean_gate()
-    n = 250 if ctx.tier == "quick" else 6000
+    n = 250 if ctx.tier == "quick" else 25000
     for i in range(n):
         check_backward(ctx, random_program(ctx.rng, p_norg=0.25))
         check_mtl(ctx, random_mtl(ctx.rng, heads_disjoint=(i % 2 == 0)))
